@@ -24,7 +24,7 @@ pub struct Row {
     pub expiry: i64, // relative to now
 }
 
-pub type State = Vec<Row>; // sorted by ip
+pub type State = Vec<Row>; // in rowid order (the order the store scans them), see read_state
 
 pub fn state_json(s: &State) -> Value {
     Value::Array(
@@ -431,7 +431,13 @@ pub fn read_state(p: &mut pool::Pool, now: i64) -> Result<State, String> {
         .into_iter()
         .map(|l| Row { ip: l.ip, client: l.client_id, start: l.start as i64 - now, expiry: l.expire as i64 - now })
         .collect();
-    rows.sort();
+    // NOT sorted: get_leases scans the table in rowid order, and that order is part of the state.
+    // select_address ranks a client's leases by (is-the-named-one, expiry) and leaves ties to the
+    // scan order, so two stores with the same rows in a different physical order can answer
+    // differently; a restart preserves the order, and so must the state (INSERT OR REPLACE gives
+    // the row a new, highest rowid, so the order is "least recently written first";
+    // pool_from_state inserts in this order and thereby reproduces it).
+    let _ = &mut rows;
     Ok(rows)
 }
 
@@ -726,7 +732,9 @@ pub fn told_after(pre_told: &State, m: &MsgOp, res: &StepResult) -> State {
 
 /// who holds what, without the start column and without expired entries
 fn holdings(s: &State) -> Vec<(Ipv4Addr, Vec<u8>, i64)> {
-    s.iter().filter(|r| r.expiry > 0).map(|r| (r.ip, r.client.clone(), r.expiry)).collect()
+    let mut h: Vec<_> = s.iter().filter(|r| r.expiry > 0).map(|r| (r.ip, r.client.clone(), r.expiry)).collect();
+    h.sort();
+    h
 }
 
 fn shift(s: &State, dt: i64) -> State {
@@ -908,8 +916,7 @@ pub fn bfs_from(cfgs: &[Cfg], alpha: &Alphabet, roots: &[State], max_depth: u32,
     let mut index: HashMap<Vec<u8>, u32> = HashMap::new();
     let mut frontier: Vec<u32> = vec![];
     for r in roots {
-        let mut r = r.clone();
-        r.sort();
+        let r = r.clone();
         let k = key_of(&r);
         if index.contains_key(&k) {
             continue;
@@ -1250,7 +1257,6 @@ pub fn replay_case(case: &Value, cfgs: &[Cfg]) -> Result<Vec<Found>, String> {
                 expiry: r["expiry_rel"].as_i64().ok_or("expiry_rel")?,
             });
         }
-        st.sort();
     }
     let mut out = vec![];
     let ops = case["ops"].as_array().ok_or("case.ops missing")?;
